@@ -3,6 +3,7 @@ package rules
 import (
 	"fmt"
 	"go/token"
+	"strings"
 
 	"golang.org/x/tools/go/ssa"
 
@@ -385,4 +386,114 @@ func c16(c *core.Ctx) {
 		}
 	}
 	c.Check(okAck, "C16.R6", "eventQueue.ack|cumulative", fpos(c, ak), "removes every event with id <= acknowledged id", "ack no longer removes exactly the events up to and including the acknowledged id")
+
+	// ---- R7 failure of a node drops exactly that node's state (full resynchronisation on rejoin)
+	nodeFailKeys(c, "C16.R7")
+
+	// ---- R8 the local subscription set is keyed by the full topic name ($share/<group>/<filter>) everywhere
+	localSubKeys(c, "C16.R8")
+}
+
+// nodeFailKeys: when a node fails, every piece of state that belongs to it — its entry in the peer table, its
+// subscriptions in the federation store, its session — is removed under that node's name (the key of the
+// peer-table lookup, or the member name recorded in the looked-up peer), never under another name such as the
+// local node's.
+func nodeFailKeys(c *core.Ctx, rule string) {
+	p := c.P
+	nf := p.Func(fedPkg, "(*Federation).nodeFail")
+	c.Analysed(fname(nf))
+	fl := ssax.NewFlow()
+	var key, peer ssa.Value
+	ssax.Instrs(nf, false, func(_ *ssa.Function, in ssa.Instruction) {
+		if l, ok := in.(*ssa.Lookup); ok && ssax.AnyIn(ssax.Backward(l.X), ssax.LoadOfField(fedPkg+".Federation.peers")) {
+			key = l.Index
+			if l.CommaOk {
+				peer = ssax.ExtractOf(l, 0)
+			} else {
+				peer = l
+			}
+		}
+	})
+	if key == nil {
+		c.Undecidedf(rule, "nodeFail|peer-lookup", fpos(c, nf), "nodeFail does not look the failed node up in the peer table")
+		return
+	}
+	allowed := map[string]bool{}
+	for _, s := range fl.Paths(key) {
+		allowed[s] = true
+	}
+	if peer != nil {
+		for _, s := range fl.Paths(peer) {
+			allowed[s+".member.Name"] = true
+		}
+	}
+	type removal struct {
+		what string
+		arg  ssa.Value
+		at   ssa.Instruction
+	}
+	var rs []removal
+	ssax.Instrs(nf, false, func(_ *ssa.Function, in ssa.Instruction) {
+		ci, ok := in.(ssa.CallInstruction)
+		if !ok {
+			return
+		}
+		ce := ssax.ResolveCallee(ci.Common())
+		switch {
+		case ce.Name == "builtin:delete" && len(ci.Common().Args) == 2 && ssax.AnyIn(ssax.Backward(ci.Common().Args[0]), ssax.LoadOfField(fedPkg+".Federation.peers")):
+			rs = append(rs, removal{"peer-table", ci.Common().Args[1], in})
+		case (ce.Kind == "invoke" && ce.Method != nil && ce.Method.Name() == "UnsubscribeAll") || (ce.Func != nil && ce.Func.Name() == "UnsubscribeAll"):
+			rs = append(rs, removal{"subscriptions", ssax.Args(ci)[0], in})
+		case ce.Func != nil && ce.Func.Name() == "del" && strings.Contains(ce.Name, "sessionMgr"):
+			rs = append(rs, removal{"session", ssax.Args(ci)[0], in})
+		}
+	})
+	seen := map[string]bool{}
+	for _, r := range rs {
+		seen[r.what] = true
+		ok := true
+		ps := fl.Paths(r.arg)
+		for _, s := range ps {
+			if !allowed[s] {
+				ok = false
+			}
+		}
+		c.Check(ok && len(ps) > 0, rule, "nodeFail|"+r.what+"|keyed-by-failed-node", ipos(c, r.at), "removed under the failed node's name", fmt.Sprintf("when a node fails its %s entry is removed under %s, which is not the failed node's name: the failed node's state survives (and, keyed by the local name, the wrong state is dropped), so a rejoin is not resynchronised", r.what, fl.Show(r.arg)))
+	}
+	for _, w := range []string{"peer-table", "subscriptions", "session"} {
+		c.Check(seen[w], rule, "nodeFail|"+w+"|removed", fpos(c, nf), "the failed node's "+w+" state is dropped", "nodeFail no longer drops the failed node's "+w+" state")
+	}
+}
+
+// localSubKeys: the reference-counted set of local subscriptions that decides what is announced to the peers is
+// keyed by the subscription's full topic name at every place that fills it (the start-up copy and the
+// OnSubscribed hook agree): keyed by the bare filter, "$share/g/t" and "t" would share one counter and the
+// unsubscription of one of them would never be announced.
+func localSubKeys(c *core.Ctx, rule string) {
+	p := c.P
+	sub := p.Func(fedPkg, "(*localSubStore).subscribe")
+	subL := p.Func(fedPkg, "(*localSubStore).subscribeLocked")
+	n := 0
+	for _, fn := range p.FuncsOfPkg(fedPkg) {
+		if p.IsMockOrGenerated(fn) {
+			continue
+		}
+		for _, cs := range ssax.Calls(fn, false, ssax.ByFunc(sub, subL)) {
+			root := cs.Fn
+			for root.Parent() != nil {
+				root = root.Parent()
+			}
+			if root == sub {
+				continue // subscribe forwards its own parameter to subscribeLocked
+			}
+			n++
+			arg := ssax.Args(cs.Instr)[1]
+			ok := false
+			if call, isCall := arg.(*ssa.Call); isCall && isCallTo(call, "(*gmqtt.Subscription).GetFullTopicName") {
+				ok = true
+			}
+			c.Check(ok, rule, fmt.Sprintf("localSubStore|keyed-by-full-name|%s#%d", fname(root), n), ipos(c, cs.Instr), "keyed by GetFullTopicName()", "the local subscription set is filled under something else than the subscription's full topic name: a shared and a plain subscription on the same filter share one reference counter, so the peers' view of this node's subscriptions goes wrong (an unsubscribe is never announced)")
+		}
+	}
+	c.Check(n >= 2, rule, "localSubStore|fill-sites", fpos(c, sub), "start-up copy and OnSubscribed hook fill the set", "the local subscription set is no longer filled both at start-up and by the OnSubscribed hook")
 }
